@@ -22,6 +22,18 @@ def main(argv=None):
         with open(a.explain or a.replay) as f:
             print(json.dumps(json.load(f), indent=2))
         return 0
+    # wall-clock watchdog: an analysis that does not finish is UNDECIDED (exit 2), never a hang
+    import signal
+
+    def _alarm(signum, frame):
+        print('ANALYSIS-ERROR property=%s rule=ENGINE reason=wall-clock limit reached; analysis did not terminate' % a.pid.upper())
+        sys.stdout.flush()
+        os._exit(2)
+    try:
+        signal.signal(signal.SIGALRM, _alarm)
+        signal.alarm(int(os.environ.get('VERIF_TIME_LIMIT', '3000' if a.tier == 'thorough' else '420')))
+    except Exception:
+        pass
     os.environ['VERIF_REPO'] = a.repo
     seed = int(os.environ.get('VERIF_SEED', '0') or 0)
     from . import loader, report
